@@ -96,10 +96,17 @@ def reopen_and_look(d, clock, known_ids, hashes):
     return out
 
 
+ACKED = threading.local()      # the acknowledged trace of the case being judged (op, obs, dump per step)
+
+
 def model_after(pre_dump, inflight, clock):
-    """model state after applying the in-flight op to the acknowledged state, and its reopen"""
+    """model state after applying the in-flight op to the acknowledged state, and its reopen. When the acknowledged
+    trace is known the model runs through it, so that what it cannot see in a dump - the collector's queue - is there"""
     lines = [json.dumps({"case": "x"}),
              json.dumps({"op": {"op": "open", "now": clock}, "obs": {"ok": None}, "dump": pre_dump})]
+    tr = getattr(ACKED, "trace", None)
+    if tr:
+        lines = [json.dumps({"case": "x"})] + [json.dumps(e) for e in tr]
     if inflight is not None:
         lines.append(json.dumps({"op": inflight["op"], "obs": inflight["obs"]}))
     lines.append(json.dumps({"op": {"op": "open", "now": clock}, "obs": {"ok": None}}))
@@ -136,6 +143,21 @@ def judge(case, pre_dump, inflight_sym, image_look, clock, frames_by_op):
                 obs = {"err": "x"}
             cand = model_after(pre_dump, {"op": op, "obs": obs}, clock)
             if same_parts(D, cand):
+                verdict = None
+    if verdict is not None and inflight_sym is not None and inflight_sym.get("op") in ("drain", "gc"):
+        # the collector removes frame by frame, each removal one atomic batch: a kill in between leaves the acknowledged
+        # state minus some of the frames the collector was about to remove - every one of them gone from all partitions
+        post = model_after(pre_dump, {"op": dict(inflight_sym), "obs": {"ok": None}}, clock)
+        pre_ids = {k for k, _ in pre_dump["stream"]}
+        post_ids = {k for k, _ in post["stream"]}
+        img_ids = {k for k, _ in D["stream"]}
+        if post_ids <= img_ids <= pre_ids:
+            gone = pre_ids - img_ids
+            partial = dict(pre_dump)
+            partial["stream"] = [kv for kv in pre_dump["stream"] if kv[0] not in gone]
+            partial["idx_topic"] = [k for k in pre_dump["idx_topic"] if k[-32:] not in gone]
+            partial["idx_context"] = [k for k in pre_dump["idx_context"] if k[-32:] not in gone]
+            if same_parts(D, partial, with_ctx=False):
                 verdict = None
     api = S.api_oracle(image_look["trace"])
     if verdict is None and api:
@@ -254,6 +276,112 @@ def run_case(case, torn=False):
     return result
 
 
+class StraceWorker(S.Worker):
+    """the worker under strace, SIGKILLed on entry to the n-th write(2) of a thread (any file: journal, partitions,
+    stdout) - a crash instant at system-call granularity"""
+    def __init__(self, n):
+        self.p = subprocess.Popen(["strace", "-f", "-qq", "-o", "/dev/null", "-e", "trace=write",
+                                   "-e", "inject=write:signal=SIGKILL:when=%d" % n, S.XSW, "store"],
+                                  stdin=subprocess.PIPE, stdout=subprocess.PIPE, stderr=subprocess.PIPE, text=True, bufsize=1)
+        self.timer = None
+
+    def call(self, op, timeout=30):
+        try:
+            return super().call(op, timeout)
+        except json.JSONDecodeError:
+            raise S.WorkerDied("killed while writing its answer")     # a torn answer line
+
+
+def sweep_case(seed):
+    """a short history whose writes touch several keys at once: overwriting imports that change topic and context,
+    head:1 evictions, removes"""
+    r = random.Random(seed)
+    ops = [{"op": "open"},
+           {"op": "append", "topic": hx("xs.context"), "ctx": ZERO, "ttl": None, "meta": None, "hash": None},
+           {"op": "append", "topic": hx("a"), "ctx": ZERO, "ttl": None, "meta": None, "hash": None},
+           {"op": "append", "topic": hx("a"), "ctx": {"ref": 1}, "ttl": r.choice([None, "head:1"]), "meta": None, "hash": None}]
+    tail = [{"op": "import", "frame": {"same_as": 2, "topic": hx(r.choice(["imp", "a"])), "ctx": {"ref": 1}}},
+            {"op": "append", "topic": hx("a"), "ctx": {"ref": 1}, "ttl": "head:1", "meta": None, "hash": None},
+            {"op": "drain"},
+            {"op": "remove", "id": {"ref": 3}},
+            {"op": "import", "frame": {"same_as": 3, "topic": hx("b"), "ctx": ZERO}}]
+    r.shuffle(tail)
+    return {"name": "sweep-%d" % seed, "ops": ops + tail, "mode": "syscall", "kill_at": None}
+
+
+def run_case_at_write(case, n):
+    """run `case`; the process dies on entry to its n-th write. Returns (result | None when it survived)"""
+    base = os.path.join(C.SCRATCH, "s%d-%s-%s-%d" % (os.getpid(), threading.get_ident(), hashlib.sha1(case["name"].encode()).hexdigest()[:8], n))
+    d = base + "-live"
+    shutil.rmtree(d, ignore_errors=True); os.makedirs(d)
+    t0 = int(time.time() * 1000)
+    res = S.Resolver(t0)
+    w = StraceWorker(n)
+    known_ids = set()
+    pre_dump, inflight, died = None, None, False
+    acked = 0
+    trace = []
+    try:
+        for i, sym in enumerate(case["ops"]):
+            op = dict(sym)
+            try:
+                if op["op"] == "open":
+                    o0 = w.call({"op": "open", "dir": d, "now": t0, "gated": True})
+                    pre_dump = w.call({"op": "dump"}).get("ok")
+                    trace.append({"op": {"op": "open", "now": t0}, "obs": o0, "dump": pre_dump})
+                    continue
+                op = res.op(i, op)
+                obs = w.call(op, timeout=60)
+                # the op is acknowledged; if the process dies while the state is being dumped the image may only be
+                # the state after this op: judged as "previous state + this op as a whole"
+                inflight = op
+                dump = w.call({"op": "dump"}).get("ok")
+                pre_dump, inflight = dump, None
+                trace.append({"op": op, "obs": obs, "dump": dump})
+                res.learn(i, op, obs)
+                if op["op"] == "append" and isinstance(obs.get("ok"), dict):
+                    known_ids.add(obs["ok"]["id"])
+                acked += 1
+            except S.WorkerDied:
+                died = True
+                if inflight is None:
+                    inflight = op if op["op"] != "open" else None
+                break
+        if not died:
+            return None
+    finally:
+        w.close()
+    result = {"case": dict(case, kill_at=n), "findings": [], "images": 1, "acked": acked,
+              "inflight": {k: v for k, v in inflight.items() if k != "body_hex"} if inflight else None}
+    if pre_dump is None:
+        shutil.rmtree(d, ignore_errors=True)
+        return result               # died before the store was open: nothing to judge
+    look = reopen_and_look(d, t0, known_ids, {})
+    ACKED.trace = trace
+    try:
+        v = judge(case, pre_dump, inflight, look, t0, None)
+    finally:
+        ACKED.trace = None
+    if v:
+        v["image"] = "killed on entry to write #%d" % n
+        result["findings"].append(v)
+    shutil.rmtree(d, ignore_errors=True)
+    return result
+
+
+def syscall_sweep(seed, max_n):
+    """every crash instant of a case at write(2) granularity, until the case runs to its end"""
+    case = sweep_case(seed)
+    out = []
+    with ThreadPoolExecutor(max_workers=12) as ex:
+        for chunk_start in range(1, max_n + 1, 24):
+            rs = list(ex.map(lambda n: run_case_at_write(case, n), range(chunk_start, min(chunk_start + 24, max_n + 1))))
+            out += [r for r in rs if r is not None]
+            if any(r is None for r in rs):
+                break
+    return out
+
+
 def sync_discipline(seed, n_ops=12):
     """power-loss half of C04 at system-call level: run a history under strace and check that
     whenever the worker acknowledges an operation (write to stdout) every byte written to a
@@ -348,6 +476,11 @@ def run(prop, tier, seed, replay=None):
     with ThreadPoolExecutor(max_workers=12) as ex:
         results = list(ex.map(lambda ci: run_case(ci[1], torn=ci[0] < ntorn), enumerate(cases)))
     sync_runs = [sync_discipline(seed * 31 + k) for k in range(3 if tier == "quick" else 40)]
+    sweeps = []
+    if not replay:
+        for k in range(2 if tier == "quick" else 12):
+            sweeps += syscall_sweep(seed * 53 + k, 160 if tier == "quick" else 400)
+    results = results + sweeps
     findings = [(r, f) for r in results for f in r["findings"]]
     for k, sr in enumerate(sync_runs):
         if sr["problems"]:
@@ -380,11 +513,13 @@ def run(prop, tier, seed, replay=None):
                 "process that is SIGKILLed right after an acknowledged write or a random 0–3000 µs into the next one; the image (and, for a subset, torn-tail "
                 "variants: acknowledged image + a prefix of the journal bytes written since) is reopened in a fresh process, dumped and read through every path; "
                 "it must equal the acknowledged state or that state plus the whole in-flight operation (model-computed), lookups must agree, content of visible "
-                "hashed frames must be present; non-trivial = at least two acknowledged operations before the kill",
+                "hashed frames must be present; plus syscall-granular sweeps: short histories with multi-key writes (overwriting imports that change topic and context, "
+                "head:1 evictions, removes) run under strace with SIGKILL injected on entry to the n-th write(2), for every n until the history completes; "
+                "non-trivial = at least two acknowledged operations before the kill",
         "samples": [{"name": r["case"]["name"], "mode": r["case"]["mode"], "kill_at": r["case"]["kill_at"], "acked": r.get("acked"),
                      "inflight": (r.get("inflight") or {}).get("op"), "images": r["images"]} for r in results[:4]],
         "kill_modes": {"%s/%s" % k: v for k, v in modes.items()},
-        "images_reopened": n_images,
+        "images_reopened": n_images, "syscall_sweep_images": len(sweeps),
         "sync_discipline_runs": [{k: v for k, v in sr.items() if k != "journal_files"} for sr in sync_runs],
     }
     if tier == "thorough":
